@@ -207,7 +207,11 @@ struct Child {
 		int id = LIB(mpt::mpt_type_basic_add(size));
 		if (id < 0) {
 			if (st == "range-exhausted") { count("refused:basic,range-exhausted"); lastflags |= F_EXHAUST; }
-			else count("spurious_refusal(not flagged):basic");
+			else {
+				// duplicate / too short name and an exhausted range are the only refusal reasons the property names
+				fail("mpt_type_basic_add|" + st + "|size|refused", what + fmt(": refused (%d) although the basic range has room", id));
+				return false;
+			}
 			note(what + fmt(" -> refused (%d)", id));
 			return true;
 		}
@@ -236,7 +240,10 @@ struct Child {
 		if (id < 0) {
 			if (variant) count("refused:generic,invalid-traits");
 			else if (st == "range-exhausted") { count("refused:generic,range-exhausted"); lastflags |= F_EXHAUST; }
-			else count("spurious_refusal(not flagged):generic");
+			else {
+				fail("mpt_type_add|" + st + "|valid-traits|refused", what + fmt(": refused (%d) although the generic range has room", id));
+				return false;
+			}
 			note(what + fmt(" -> refused (%d)", id));
 			return true;
 		}
@@ -266,13 +273,18 @@ struct Child {
 		bool shadow = name && !dup && has_name(kind == KIface ? KMeta : KIface, name);
 		std::string argc = !name ? "unnamed" : tooshort ? "short-name" : dup ? "dup-name" : shadow ? "name-of-other-kind" : "new-name";
 		char *own = name ? strdup(name) : 0;     // the registry must keep its own copy
+		errno = 0;
 		const mpt::named_traits *nt = kind == KIface ? LIB(mpt::mpt_type_interface_add(own)) : LIB(mpt::mpt_type_metatype_add(own));
 		if (own) { memset(own, '#', strlen(own)); free(own); }
 		if (!nt) {
 			if (tooshort) { count(kind == KIface ? "refused:interface,short-name" : "refused:metatype,short-name"); lastflags |= F_NAMEREF; }
 			else if (dup) { count(kind == KIface ? "refused:interface,dup-name" : "refused:metatype,dup-name"); lastflags |= F_NAMEREF; }
 			else if (st == "range-exhausted") { count(kind == KIface ? "refused:interface,range-exhausted" : "refused:metatype,range-exhausted"); lastflags |= F_EXHAUST; }
-			else count(kind == KIface ? "spurious_refusal(not flagged):interface" : "spurious_refusal(not flagged):metatype");
+			else {
+				// neither too short, nor a duplicate inside its kind, nor an exhausted range: must be accepted
+				fail(std::string(fn) + "|" + st + "|" + argc + "|refused", what + fmt(": refused (errno %d) although the name is not registered as %s and the range has room", errno, kindname[kind]));
+				return false;
+			}
 			note(what + " -> refused");
 			return true;
 		}
@@ -321,7 +333,7 @@ struct Child {
 				ok = add_named(kind, fill_named(n) ? nm : 0);
 			}
 			int n2 = kind == KBasic ? nB : kind == KGeneric ? nG : kind == KIface ? nI : nM;
-			if (ok && n2 == n) { count("fill_stopped_by_refusal(not flagged)"); break; }   // spurious refusal inside a fill
+			if (ok && n2 == n) { count("fill_stopped_at_exhausted_range"); break; }   // only exhaustion refusals get here, others are violations
 		}
 		trace = t;
 		lastflags = 0;
